@@ -272,6 +272,22 @@ def run(tier):
     ck.log("constants: %d programs compared, %d problems" % (ccmp, cmism))
     from . import c12
     c12.check_leaks(ck)
+    # rows of a named length: `|x[0]|` through a view of rows equals the row length of the array passed
+    # (an array with another row length does not coerce: such a call must be rejected)
+    rows = []
+    for ri, (m, cols) in enumerate([(4, 4), (4, 5), (3, 3), (5, 4), (1, 1), (2, 7)]):
+        rows.append(("rw%d" % ri, "const M: usize = %d;\nfn row_len(x: [][M]i16) -> usize\n{\n\treturn: |x[0]|\n}\nfn rows(x: [][M]i16) -> usize\n{\n\treturn: |x|\n}\nfn main() -> u8\n{\n\tvar grid: [3][%d]i16;\n\tprint!(|grid|, \" \", |grid[0]|, \" \", rows(grid), \" \", row_len(grid), \"\\n\");\n\treturn: 0\n}\n" % (m, cols), m, cols))
+    rimpl = C.run_harness("exec", [(x[0], x[1]) for x in rows], ck.work + "/rows", timeout=600)
+    for cid, src, m, cols in rows:
+        f = rimpl.get(cid, ["missing"])
+        if f[0].startswith("ok"):
+            got = C.unesc(f[1].split(" out=", 1)[1].split(" stderr=")[0]).decode(errors="replace").strip() if " out=" in f[1] else "?"
+            if got != "3 %d 3 %d" % (cols, cols):
+                ck.violation("length-through-parameter:rows", "|grid| |grid[0]| by name and through a view of rows print `%s` for a [3][%d]i16 passed as [][%d]i16" % (got, cols, m), src)
+        elif m == cols and f[0].startswith("err"):
+            ck.violation("const-rejected:" + f[0], "an array of rows of the named length is rejected: " + f[0], src)
+        elif not f[0].startswith("err codes="):
+            ck.violation(C.failure_key(f[0]), "compiler failed: " + f[0][:160], src)
     # structures of one name in two modules (each private): every module's size-of is that of its own structure
     # (the unchanged compiler aborts in LLVM's verifier on these - C02's listed D58 -; when it does not, the sizes count)
     ssets = []
